@@ -7,8 +7,8 @@
    paragraphs and is a fixed point. *)
 From Coq Require Import String List NArith ZArith Bool.
 From J5V.lib Require Import Text Outcome GoExpr.
-From J5V.model Require Import BclLexer BclParser BclFmt BclCli.
-From J5V.proofs Require Import BclPosProofs BclLexerProofs BclParserProofs BclFmtProofs BclFmtLitProofs BclReflowProofs BclLexLitProofs BclFmtSeqProofs BclFragWfProofs BclFmtLineProofs BclWalkBackProofs BclFmtFileProofs BclDescGapProofs BclFmtRoundProofs BclFmtIdemProofs BclDocProofs BclUtf8Proofs BclRuneClosedProofs BclFmtBytesProofs BclDocBytesProofs BclCliProofs BclIdentExactProofs BclFmtGenProofs BclFmtGenAllProofs BclFmtGenAll2Proofs BclFmtGenAll3Proofs.
+From J5V.model Require Import BclLexer BclParser BclFmt BclCli BclFmtAligned.
+From J5V.proofs Require Import BclPosProofs BclLexerProofs BclParserProofs BclFmtProofs BclFmtLitProofs BclReflowProofs BclLexLitProofs BclFmtSeqProofs BclFragWfProofs BclFmtLineProofs BclWalkBackProofs BclFmtFileProofs BclDescGapProofs BclFmtRoundProofs BclFmtIdemProofs BclDocProofs BclUtf8Proofs BclRuneClosedProofs BclFmtBytesProofs BclDocBytesProofs BclCliProofs BclIdentExactProofs BclFmtGenProofs BclFmtGenAllProofs BclFmtGenAll2Proofs BclFmtGenAll3Proofs BclFmtDiffsIdemProofs.
 (* after the proofs: doc_of / value_doc / tag_doc below are the declarative ones of model/BclDoc.v *)
 From J5V.model Require Import BclDoc.
 Import ListNotations.
@@ -238,6 +238,29 @@ Print Assumptions C09_same_tree_bytes.
 Theorem C09_idempotent_bytes : forall input outb, fmt_bytes input = Ok outb -> fmt_bytes outb = Ok outb.
 Proof. exact fmt_bytes_idempotent. Qed.
 Print Assumptions C09_idempotent_bytes.
+
+(* idempotence seen through the edit list (C19's FmtDiffs): the full statement is that the editor is offered NO edit
+   for formatted text.  Proved (BclFmtDiffsIdemProofs.v) up to one boolean condition on the diffs ds the second run
+   computes from the output: [extent_ok ds] = every diff spans exactly the lines of its own text.  Everything else is
+   proved for all accepted inputs: y is the joined text of ds, the start lines of ds are exact, nothing is merged,
+   no leading / gap / replacement edit.  (C09_idempotent_bytes, the text-level clause, is unconditional.) *)
+Definition C09_formatted_no_edits_full_statement : Prop :=
+  forall x y, fmt_bytes x = Ok y -> fmt_diffs y = Ok [].
+
+Theorem C09_formatted_no_edits_partial : forall x y, fmt_bytes x = Ok y ->
+  exists ds, collect_fmt (utf8_decode y) = Ok ds /\ y = utf8_encode (fmt_join ds true (-1)) /\
+             (extent_ok ds = true -> fmt_diffs y = Ok []).
+Proof. exact fmt_diffs_idem_extent. Qed.
+Print Assumptions C09_formatted_no_edits_partial.
+
+(* non-vacuity: a block with a description that is re-flowed, a multi-line block comment and an empty line; the
+   second run's diffs satisfy the condition and the edit list of the formatted text is empty *)
+Example C09_formatted_no_edits_example :
+  let src := [97;32;123;10;124;32;100;32;32;101;10;10;10;47;42;32;99;10;32;42;47;10;120;61;91;49;44;50;93;10;125;10]%N in
+  (* a { / | d  e / (2 empty lines) / (block comment over 2 lines) / x=[1,2] / } *)
+  exists y ds, fmt_bytes src = Ok y /\ y <> src /\ collect_fmt (utf8_decode y) = Ok ds /\
+    extent_ok ds = true /\ fmt_diffs y = Ok [] /\ fmt_bytes y = Ok y.
+Proof. cbv zeta. do 2 eexists. split; [vm_compute; reflexivity|]. split; [discriminate|]. split; [vm_compute; reflexivity|]. repeat split; vm_compute; reflexivity. Qed.
 
 (* the three facts the byte level adds *)
 Theorem C09_decode_yields_valid_runes : forall bs, Forall (fun c => valid_rune c = true) (utf8_decode bs).
